@@ -442,6 +442,14 @@ func c12StatusGens() []c12StatusGen {
 			s := h.Pick(r, c12ProfSels)
 			return map[string]any{"matchers": []string{s}, "label_names": []string{"a"}}, !selOk(s)
 		}),
+		prof("AnalyzeQuery", true, func() any { return &profpb.AnalyzeQueryRequest{} }, func(r *h.Rng) (map[string]any, bool) {
+			// ProfService.AnalyzeQuery hands the whole text to the selector parser (no type id in front)
+			q := h.Pick(r, c12ProfSels)
+			if r.Chance(25) {
+				q = h.Pick(r, c12TypeIDs) + q
+			}
+			return map[string]any{"query": q}, !selOk(q)
+		}),
 		c12StatusGen{"prof/GetProfileStats", func(r *h.Rng) (*c12Case, string) {
 			c := &c12Case{Endpoint: "prof/GetProfileStats", Method: "POST", Abort: -1, Path: "/querier.v1.QuerierService/GetProfileStats",
 				Header: map[string]string{"Content-Type": "application/json"}, Body: []byte("{}")}
